@@ -299,11 +299,57 @@ def make_bigmem(ch, params):
     return m, script, {'nontrivial_fn': nt, 'ninst': 1, 'classes': {'address>=2^31': n_high, 'mem_2GiB': 1}}
 
 
+@f1.maker('c05_hugegrow')
+def make_hugegrow(ch, params):
+    """one memory.grow that would make the memory huge (up to the 65536-page limit of the specification): it may succeed or fail
+    for lack of memory - either way the bytes stored before must still be there afterwards, and the process must stay sane"""
+    m = Module()
+    mx = ch.pick((None, None, 65536, 65535, 40000))
+    m.memory = (1, mx)
+    m.exports.append((b'mem', 'memory', 0))
+    T = m.type_index
+    m.funcs.append(Func(T((I32,), (I32,)), [], [('local.get', 0), ('memory.grow',)]))
+    m.funcs.append(Func(T((I32, I64), ()), [], [('local.get', 0), ('local.get', 1), ('i64.store', 0, 0)]))
+    m.funcs.append(Func(T((I32,), (I64,)), [], [('local.get', 0), ('i64.load', 0, 0)]))
+    m.funcs.append(Func(T((I32, I32), ()), [], [('local.get', 0), ('local.get', 1), ('i32.store8', 0, 0)]))
+    m.funcs.append(Func(T((I32,), (I32,)), [], [('local.get', 0), ('i32.load8_u', 0, 0)]))
+    for i, n in enumerate((b'grow', b'st', b'ld', b'st8', b'ld8')):
+        m.exports.append((n, 'func', i))
+    script = e2e.default_setup(m, 1) + [('mayfail',)]
+    spots = [0, 8, 1000, 4096, 65528, 65535 - 7, 32768]
+    vals = {}
+    for _ in range(4 + ch.below(6)):
+        a = ch.pick(spots)
+        v = ch.bits(64)
+        vals[a] = v
+        script.append(('call', 0, 1, [a, v]))
+    script.append(('call', 0, 3, [65535, 0xa7]))
+    lim = mx if mx is not None else 65536
+    delta = ch.pick((65535, 65535, lim - 1, 65534, 32767, 39999, 49151))
+    script.append(('call', 0, 0, [delta]))
+    for a in sorted(vals):
+        script.append(('call', 0, 2, [a]))
+    script.append(('call', 0, 4, [65535]))
+    script.append(('dump', 0, 0, 32))
+    script.append(('dump', 0, 65536 - 32, 32))
+    # the old page is still writable and readable
+    for _ in range(3):
+        a = ch.pick(spots)
+        v = ch.bits(64)
+        script += [('call', 0, 1, [a, v]), ('call', 0, 2, [a])]
+
+    def nt(m_, script_, model, meta):
+        return [(f1.hx(repr(script_)), [])]
+    return m, script, {'nontrivial_fn': nt, 'ninst': 1, 'classes': {'grow_towards_4GiB': 1, 'grow_to_exactly_65536_pages': 1 if 1 + delta == 65536 else 0}}
+
+
 def plan(tier, seed):
     big = {'maker': 'c05_bigmem', 'ccs': ['gcc-O0', 'clang-O2', 'gcc-O2', 'clang-O0'], 'shrink_budget': 6, 'reduce_budget': 6}
+    huge = {'maker': 'c05_hugegrow', 'ccs': ['gcc-O0', 'clang-O2', 'gcc-O2', 'clang-O1-san'], 'shrink_budget': 4, 'reduce_budget': 4,
+            'encoding_knobs': False}
     if tier == 'quick':
-        return plan_histories(tier) + [dict(big, ncases=2) for _ in range(4)]
-    return plan_histories(tier) + [dict(big, ncases=12) for _ in range(8)]
+        return plan_histories(tier) + [dict(big, ncases=2) for _ in range(4)] + [dict(huge, ncases=4) for _ in range(2)]
+    return plan_histories(tier) + [dict(big, ncases=12) for _ in range(8)] + [dict(huge, ncases=30) for _ in range(4)]
 
 
 def plan_histories(tier):
